@@ -11,7 +11,7 @@ ENG_NOTE = ('Serial transactions in one process (tx_lock) - statement-level race
             'RPC transport, post-commit thread spawning, scheduler threads and action bodies replaced by the deterministic world; reliable '
             'messaging (duplicates/reordering explored, no loss).')
 ENG_TECH = 'TLA+ property formulas (EngineProps) evaluated by TLC on every step of recorded runs of the real engine under controlled schedules'
-ENG_MODEL = (' Model level: MistralEngine.tla (one action per atomic step of the code: start, post-commit operations, message deliveries, '
+ENG_MODEL = (' Model level: MistralEngine.tla (direct and reverse workflows; one action per atomic step of the code: start, post-commit operations, message deliveries, '
              'scheduler jobs of BOTH scheduler implementations (default: capture / invoke / delete per job; legacy: poll pass), the pause command and '
              'its backlog, operator pause / resume / stop, redeliveries, retry (continue-on / break-on) / wait-before / wait-after / timeout / pause-before / fail-on policies, operator rerun / skip, with-items tasks (count / capacity accounting, concurrency, accepted flags, one accounting job per reported item), clock) is model-checked exhaustively by TLC on the '
              'shape catalogue with the stated operator / redelivery budgets, the property formulas holding modulo the named known-finding '
